@@ -414,7 +414,8 @@ Definition m_faithful (tbl : rfunc -> flags) (f : rfunc) (axis : Z) (skipna : bo
 Definition dom (tbl : rfunc -> flags) (f : rfunc) (axis : Z) (skipna : bool) (r : nat) (bs : list vblk) : bool :=
   negb (is_nil bs) &&
   negb (multi bs && (axis =? 0) && shortcut0 (tbl f) skipna bs) &&
-  negb (multi bs && (axis =? 0) && out_is_bool (tbl f) (row_kind (frame_kinds bs)) && negb (is_logical f)).
+  negb (multi bs && (axis =? 0) && out_is_bool (tbl f) (row_kind (frame_kinds bs)) &&
+        (match f with Fsum => true | _ => false end)).
 
 (* ------------------------------------------------------------------ comparing with what was observed *)
 Definition two40 : Q := (1099511627776 # 1).
